@@ -323,6 +323,11 @@ class GraphSystem(System):
                 if len(aids_) > 1:
                     ops.append((('add_live_attacker', aids_[0], aids_[1]), 1))
             if len(g.attackers) < self.max_attackers and ids:
+                # an attacker constructed with entry points / reached steps already filled in (node objects)
+                ops.append((('add_attacker_filled', ids[0], 'graph_node'), 1))
+                if c.removed_nodes:
+                    ops.append((('add_attacker_filled', None, 'removed_node'), 1))
+            if len(g.attackers) < self.max_attackers and ids:
                 # unknown step ids: after a known one among the reached steps / among the entry points
                 ghost = max(ids) + 7
                 ops.append((('add_attacker_bad', 'reached', ids[0], ghost), 1))
@@ -492,6 +497,26 @@ class GraphSystem(System):
         def thunk():
             c.g.add_attacker(a, attacker_id=op[2])
         return 'lenient', thunk, None, 'id_of_other' if op[2] is not None else 'auto_id'
+
+    def op_add_attacker_filled(self, c, op):
+        from maltoolbox.attackgraph import Attacker
+        _, nid, kind = op
+        n = next(x for x in c.g.nodes if x.id == nid) if kind == 'graph_node' else c.removed_nodes[-1]
+        c.scratch_n += 1
+        a = Attacker(name=f'att{c.scratch_n}', entry_points=[n], reached_attack_steps=[n])
+
+        def thunk():
+            c.g.add_attacker(a)
+
+        def expect(before, after):
+            o = copy.deepcopy(before)
+            o['attackers'][a.id] = {'name': a.name, 'entry_points': [n.id], 'reached': [n.id]}
+            o['nodes'][n.id]['compromised_by'] = sorted(o['nodes'][n.id]['compromised_by'] + [a.id])
+            return o
+        if kind == 'graph_node':
+            return 'must_succeed', thunk, expect, 'graph_node'
+        # a node that is not in the graph: rejecting (nothing changes) or accepting with the invariants intact
+        return 'lenient', thunk, None, 'node_outside_graph'
 
     def op_add_attacker_bad(self, c, op):
         from maltoolbox.attackgraph import Attacker
